@@ -196,7 +196,9 @@ impl Scenario for C10S {
         let mut judged = 0u64;
         let mut judged_alive = 0u64;
         // with injected clock jumps, elapsed virtual time says nothing about blocking
-        let jumped = sim::g().stats.f_timejump > 0;
+        // a call is excused from the timing rules only if a clock jump fell inside it
+        let jumps: Vec<(u64, u64)> = sim::g().timejumps.clone();
+        let spans_jump = |inv_vns: u64, ret_vns: u64| jumps.iter().any(|(b, a)| inv_vns <= *b && *a <= ret_vns);
         for e in evs {
             if e.op == "call.inv" {
                 cur = Some((e.a, e.b, e.c, e.seq, e.vns));
@@ -232,7 +234,7 @@ impl Scenario for C10S {
                                 out.viol(&format!("order:{}", kname), format!("call {} returned {:?} before an earlier message of the same sender", ci, key));
                             }
                             // no waiting once the message is there
-                            if kind != 0 && !jumped {
+                            if kind != 0 && !spans_jump(inv_vns, e.vns) {
                                 let avail_vns = s.ret.map(|r| r.1).unwrap_or(u64::MAX).max(inv_vns);
                                 if e.vns > avail_vns {
                                     out.viol(&format!("late-return:{}", kname), format!("call {} ({} d={}us) returned message {:?} at t={}ns although it was completely sent by t={}ns", ci, kname, d_us, key, e.vns, avail_vns));
@@ -252,7 +254,7 @@ impl Scenario for C10S {
                     if all_dropped_before(inv) && !sends.iter().any(|s| s.ok && !delivered.contains(&(s.s, s.q))) {
                         out.viol(&format!("empty-when-disconnected:{}", kname), format!("call {} ({}) reported empty although every sender had been dropped before the call and nothing was pending", ci, kname));
                     }
-                    if kind == 1 && elapsed != 0 && !jumped {
+                    if kind == 1 && elapsed != 0 && !spans_jump(inv_vns, e.vns) {
                         out.viol("blocked:try_recv", format!("try_recv (call {}) took {} ns of virtual time to report empty", ci, elapsed));
                     }
                     if kind == 2 {
@@ -277,10 +279,10 @@ impl Scenario for C10S {
                     if let Some(s) = sends.iter().find(|s| s.ok && !delivered.contains(&(s.s, s.q))) {
                         out.viol(&format!("disconnect-before-delivery:{}", kname), format!("call {} ({}) reported disconnected before delivering message ({},{})", ci, kname, s.s, s.q));
                     }
-                    if kind != 0 && !jumped && e.vns > last_drop_vns.max(inv_vns) {
+                    if kind != 0 && !spans_jump(inv_vns, e.vns) && e.vns > last_drop_vns.max(inv_vns) {
                         out.viol(&format!("late-return:{}", kname), format!("call {} ({} d={}us) reported disconnected at t={} although the last sender was gone at t={}", ci, kname, d_us, e.vns, last_drop_vns));
                     }
-                    if kind == 1 && elapsed != 0 && !jumped {
+                    if kind == 1 && elapsed != 0 && !spans_jump(inv_vns, e.vns) {
                         out.viol("blocked:try_recv", format!("try_recv (call {}) took {} ns of virtual time", ci, elapsed));
                     }
                 },
@@ -290,7 +292,7 @@ impl Scenario for C10S {
                 "call.bad" => out.viol(&format!("torn:{}", kname), format!("call {}: {}", ci, e.s)),
                 _ => {},
             }
-            if e.op == "call.msg" && kind == 1 && elapsed != 0 && !jumped {
+            if e.op == "call.msg" && kind == 1 && elapsed != 0 && !spans_jump(inv_vns, e.vns) {
                 out.viol("blocked:try_recv", format!("try_recv (call {}) took {} ns of virtual time to return a message", ci, elapsed));
             }
             cur = None;
